@@ -322,6 +322,10 @@ func (g *lgen) srcLeaf(allowUnbounded bool) Source {
 		name = "world"
 	} else {
 		name = g.account()
+		if !allowUnbounded && name == "world" {
+			// a repeated pick must not smuggle @world into a position where it is not allowed
+			name = rng.PickOf(g.r, g.cfg.Accounts)
+		}
 	}
 	g.used = append(g.used, name)
 	if name != "world" && g.pct(g.cfg.POverdraft) {
